@@ -123,6 +123,9 @@ pub struct RunState {
     pub pool_jobs: u64,
     /// tasks of jobs that wait for a free pool thread
     pub pool_waiters: Vec<u32>,
+    /// what `std::thread::available_parallelism` reports to the simulated process (CPU affinity,
+    /// container quota)
+    pub cpus: u32,
     // ---- process ----
     pub hook: Option<Hook>,
     pub hook_sets: u32,
@@ -169,6 +172,7 @@ impl RunState {
             pool_busy: 0,
             pool_jobs: 0,
             pool_waiters: Vec::new(),
+            cpus: 16,
             hook: None,
             hook_sets: 0,
             hook_calls: 0,
